@@ -16,7 +16,104 @@
     Only the first failure of a case is reported (a diverged replay stays
     diverged).  Definitions only. *)
 From Gnmi Require Import Base.Prelude CTree.CTreeModel Path.PathModel Cache.CacheModel Cache.C02Check.
+From Gnmi Require Import Cache.SliceHeap.
 Local Open Scope Z_scope.
+
+(** * The slice-heap model (SliceHeap.v) evaluated on the case's own inputs
+
+    For every gnmiRemove of the model run, the removed stored notifications are
+    laid out in a heap as the harness laid out the caller's objects: ONE
+    backing array per shared prefix object ([n_pcap]: id and spare capacity,
+    the spare cells zero), an own array for every other prefix and for every
+    update path.  [build_deletes to_delete_fixed] -- the code of HEAD over that
+    heap -- then yields the path every delete notification carries once ALL of
+    them are built, and the arrays afterwards; both are compared with what the
+    implementation showed (tag 1): the delete notifications of the chunk, and
+    whether any cell of a caller's slice (spare capacity included) changed. *)
+Definition go_extra (c n : nat) : nat := n.      (* any growth policy: HEAD never reallocates here *)
+
+Definition find_arr (id : N) (ids : list (N * nat)) : option nat :=
+  match find (fun kv => N.eqb (fst kv) id) ids with Some kv => Some (snd kv) | None => None end.
+
+Definition conv_names (l : list string) : list pelem := map (fun e => (e, [])) l.
+
+Definition first_path (d : notif) : gpath :=
+  match n_upd d with u :: _ => gp_of_opt (u_path u) | [] => empty_gpath end.
+
+Fixpoint heap_srcs (removed : list notif) (h : @heap pelem) (ids : list (N * nat))
+  : @heap pelem * list (dsrc pelem) :=
+  match removed with
+  | [] => (h, [])
+  | d :: rest =>
+      let pr := gp_of_opt (n_prefix d) in
+      let ph := first_path d in
+      let pes := gp_elems pr in
+      let lp := List.length pes in
+      let '(h1, ids1, ps) :=
+        match n_pcap d with
+        | Some (id, spare) =>
+            match find_arr id ids with
+            | Some k => (h, ids, Sl k 0 lp (lp + N.to_nat spare))
+            | None => (h ++ [map Some pes ++ repeat None (N.to_nat spare)], (id, List.length h) :: ids,
+                       Sl (List.length h) 0 lp (lp + N.to_nat spare))
+            end
+        | None => (h ++ [map Some pes], ids, Sl (List.length h) 0 lp lp)
+        end in
+      let les := gp_elems ph in
+      let h2 := h1 ++ [map Some les] in
+      let ls := Sl (List.length h1) 0 (List.length les) (List.length les) in
+      let '(h3, srcs) := heap_srcs rest h2 ids1 in
+      (h3, DSrc ps (conv_names (gp_element pr)) ls (conv_names (gp_element ph)) :: srcs)
+  end.
+
+(** toDeleteNotification takes the Elem branch for [d] *)
+Definition elem_branch (d : notif) : bool :=
+  negb (n_atomic d) &&
+  match gp_elems (gp_of_opt (n_prefix d)), gp_elems (first_path d) with [], [] => false | _, _ => true end.
+
+Definition cell_elem (c : @cell pelem) : pelem := match c with Some e => e | None => (""%string, []) end.
+
+Definition cell_eqb (a b : @cell pelem) : bool :=
+  match a, b with Some x, Some y => pelem_eqb x y | None, None => true | _, _ => false end.
+
+(** the delete notifications of one gnmiRemove through the heap, and whether
+    an array that existed before (a caller's) differs afterwards *)
+Definition heap_render (removed : list notif) (ts : Z) : list notif * bool :=
+  let '(h, srcs) := heap_srcs removed [] [] in
+  let '(h', os) := build_deletes (to_delete_fixed go_extra) h srcs in
+  (map (fun dp => let '(d, o) := dp in
+                  if elem_branch d
+                  then mk_delete d ts (GPath "" "" (map cell_elem (sread h' o)) [])
+                  else mk_delete d ts (del_path d))
+       (combine removed os),
+   negb (list_eqb (list_eqb cell_eqb) h (firstn (List.length h) h'))).
+
+Fixpoint heap_feed_matches (gs : list fgroup) (feed : list notif) : bool :=
+  match gs with
+  | [] => true
+  | g :: gs' =>
+      match g with
+      | FUpd _ => true
+      | FDel removed ts => bag_eqb (fst (heap_render removed ts)) (firstn (group_size g) feed)
+      end && heap_feed_matches gs' (skipn (group_size g) feed)
+  end.
+
+Fixpoint heap_matches (m : mfeed) (feed : list notif) : bool :=
+  match m with
+  | MGroups gs => heap_feed_matches (flat_map drop_meta_group gs) feed
+  | MBag _ => true       (* Reset / Remove build their paths with deleteNoti from strings: no caller slice is read *)
+  | MSeq a b => heap_matches a (firstn (mfeed_size a) feed) && heap_matches b (skipn (mfeed_size a) feed)
+  end.
+
+(** does the heap model write into a caller's array during this call? *)
+Fixpoint heap_mutates (m : mfeed) : bool :=
+  match m with
+  | MGroups gs => existsb (fun g => match g with
+                                    | FUpd _ => false
+                                    | FDel removed ts => snd (heap_render removed ts) end) gs
+  | MBag _ => false
+  | MSeq a b => heap_mutates a || heap_mutates b
+  end.
 
 (** * Replay of the change feed *)
 
@@ -187,7 +284,8 @@ Fixpoint corr_from (i : nat) (c : cache) (l : list (cop * cobs)) : list (nat * N
   | [] => []
   | (o, r) :: l' =>
       let '(c', mr, mf) := mstep c o in
-      (if rcls_eqb mr (o_res r) && mfeed_matches mf (o_feed r) && dump_eqb (mdump c') (o_dump r)
+      (if rcls_eqb mr (o_res r) && mfeed_matches mf (o_feed r) && dump_eqb (mdump c') (o_dump r) &&
+          heap_matches mf (o_feed r) && (heap_mutates mf || negb (o_mutated r))
        then [] else [(i, 1%N)]) ++ corr_from (S i) c' l'
   end.
 
